@@ -2001,7 +2001,7 @@ def walk_all(ctx: Ctx, f: FunctionInfo) -> List[ast.AST]:
     """Every AST node of f's body plus those of the helpers analysed in place in f (their alpha-renamed copies)."""
     out: List[ast.AST] = []
     seen: Set[int] = set()
-    roots: List[ast.AST] = [f.node] + [n.ast for n in ctx.cfg(f).nodes if n.ast is not None and n.kind in ("stmt", "return", "raise")]
+    roots: List[ast.AST] = [f.node] + [n.ast for n in ctx.cfg(f).nodes if n.ast is not None and n.kind in ("stmt", "return", "raise", "branch", "call")]
     for r in roots:
         for x in ast.walk(r):
             if id(x) not in seen:
